@@ -1,5 +1,6 @@
 import PharmpyModel.Core.Sexp
 import PharmpyModel.C19.Model
+import PharmpyModel.C19.Stats
 open Pharmpy Pharmpy.C19
 
 def bad : Sexp := .list [.atom "err", .atom "bad-op"]
@@ -173,7 +174,67 @@ def vis? : Sexp → Option Vis
 
 def sortStrs (xs : List String) : List String := (xs.toArray.qsort (· < ·)).toList
 
+
+def rats? (x : Sexp) : Option (List Rat) := do
+  let xs ← x.asList?
+  xs.mapM ratS?
+
+def mat? (x : Sexp) : Option (List (List Rat)) := do
+  let xs ← x.asList?
+  xs.mapM rats?
+
+def ratsOut (xs : List Rat) : Sexp := .list (xs.map ratOut)
+def matOut (m : List (List Rat)) : Sexp := .list (m.map ratsOut)
+def rectangular (m : List (List Rat)) : Bool :=
+  match m with
+  | [] => true
+  | r :: rs => rs.all (fun x => x.length == r.length)
+def square (m : List (List Rat)) : Bool := m.all (fun r => r.length == m.length)
+
+def handleStats (req : Sexp) : Option Sexp :=
+  match req with
+  | .list [.atom "bootstrap", cols, orig] =>
+    match mat? cols, rats? orig with
+    | some cols, some orig =>
+      if !rectangular cols || cols.length != orig.length then some bad
+      else
+        let st := (cols.zip orig).map (fun co => Stats.colStats co.1 co.2)
+        some (.list [.list (st.map (fun s => .list [ratOut s.mean, ratOut s.median, ratOut s.bias, ratOut s.var, ratOut s.rse2, ratsOut s.dist])),
+                     matOut (Stats.covMatrix cols)])
+    | _, _ => some bad
+  | .list [.atom "jackknife", cols] =>
+    match mat? cols with
+    | some cols => if !rectangular cols then some bad else some (matOut (Stats.jackMatrix cols))
+    | none => some bad
+  | .list [.atom "cook2", base, cols, m] =>
+    match rats? base, mat? cols, mat? m with
+    | some base, some cols, some m =>
+      if !rectangular cols || !square m || m.length != cols.length || base.length != cols.length then some bad
+      else some (.list ((Stats.cook2 base cols m).map (fun o => match o with | some q => ratOut q | none => .atom "singular")))
+    | _, _, _ => some bad
+  | .list [.atom "covratio2", ci, c] =>
+    match mat? ci, mat? c with
+    | some ci, some c =>
+      if !square ci || !square c || ci.length != c.length then some bad
+      else if Stats.det c.length c == 0 then some (.atom "singular")
+      else some (ratOut (Stats.covRatio2 ci c))
+    | _, _ => some bad
+  | .list [.atom "shrinkage", cols, omegas] =>
+    match mat? cols, rats? omegas with
+    | some cols, some om =>
+      if cols.length != om.length then some bad
+      else some (ratsOut ((cols.zip om).map (fun co => Stats.etaShrinkage co.1 co.2)))
+    | _, _ => some bad
+  | .list [.atom "ishrinkage", diags, omegas] =>
+    match mat? diags, rats? omegas with
+    | some ds, some om => some (matOut (ds.map (fun row => (row.zip om).map (fun p => Stats.indShrinkage p.1 p.2))))
+    | _, _ => some bad
+  | _ => none
+
 def handle (req : Sexp) : Sexp :=
+  match handleStats req with
+  | some a => a
+  | none =>
   match req with
   | .list [.atom "strict", r, s] =>
     match res? r, strict? s with
